@@ -3,6 +3,7 @@
 cd "$(dirname "$0")"
 T=${1:-300}
 OUT=$(mktemp -d /var/tmp/apalache-out.XXXXXX)
+export TMPDIR=$OUT        # the launcher unpacks the standard modules into $(mktemp -d -t SANY...)
 run() { # module init inv length
   if timeout $T apalache-mc check --cinit=ConstInit --init=$2 --inv=$3 --length=$4 --out-dir=$OUT $1.tla 2>&1 | grep -q "EXITCODE: OK"; then echo "APALACHE $1 $2=>$3 len=$4 OK"; else echo "APALACHE $1 $2=>$3 len=$4 FAIL"; fi
 }
